@@ -11,6 +11,7 @@ import (
 	"runtime"
 	"runtime/debug"
 	"sort"
+	"strconv"
 	"strings"
 	"testing"
 	"time"
@@ -284,7 +285,11 @@ func (c *Ctx) Explore(o ExploreOpts) {
 		e = c.Spec.E
 	}
 	c.SetCase(o.Name)
+	baseSteps, hangs := 0, 0
 	judge := func(x *vsched.Exec) {
+		if baseSteps == 0 && x.Status == "complete" {
+			baseSteps = x.Steps // the first complete execution is the default schedule (or close to it)
+		}
 		switch x.Status {
 		case "complete":
 			if o.Check != nil {
@@ -300,7 +305,19 @@ func (c *Ctx) Explore(o ExploreOpts) {
 			case "panic":
 				c.Violation(o.Prop+"/panic/"+o.Name+"/"+firstLine(x.PanicVal), "panic in scheduled thread: "+x.PanicVal+"\n"+trimStack(x.Stack), x)
 			case "horizon":
-				c.Cap("horizon:" + o.Name)
+				// An execution that needs more than ten times the steps of the scenario's default schedule
+				// is not a long execution but one that does not end: a spin or a retry loop whose exit
+				// condition can no longer become true (livelock). Anything closer to the default is only
+				// reported as a cap (the horizon may simply be too small for the scenario).
+				if baseSteps > 0 && x.Steps > 10*baseSteps {
+					hangs++
+					c.Violation(o.Prop+"/livelock/"+o.Name, "the execution does not terminate: more than "+strconv.Itoa(x.Steps-1)+" scheduling steps, the default schedule of this scenario takes "+strconv.Itoa(baseSteps)+"; running threads: "+strings.Join(x.Blocked, ","), x)
+				} else {
+					c.Cap("horizon:" + o.Name)
+				}
+			}
+			if x.Status == "deadlock" {
+				hangs++
 			}
 		}
 	}
@@ -341,6 +358,11 @@ func (c *Ctx) Explore(o ExploreOpts) {
 			c.Sample(map[string]any{"scenario": o.Name, "default_schedule_trace": x.Trace, "status": x.Status})
 		}
 		judge(x)
+		if hangs >= 8 {
+			// every further schedule of a scenario that hangs costs a full horizon: enough has been seen
+			c.Cap("stopped after 8 deadlocked / non-terminating executions:" + o.Name)
+			return false
+		}
 		return !c.Stop
 	})
 	c.Res.Execs += ex.Execs
